@@ -102,12 +102,29 @@ impl C12 {
         // the lax trait also accepts an argument that still carries pending unifications: it is the image of
         // the quotiented argument
         {
-            let px = explode(p);
+            // (node numbering shuffled: interface nodes may be numbered after nodes that get merged away)
+            let px = { let e = explode(p); let np = Rng(hash_of(&(spec, p))).perm(e.w.len()); renumber_lax(&e, &np) };
             if !px.q.is_empty() {
                 ctx.class("lax_argument_with_pending_unifications");
             }
             let lxp = to_lax(&px);
             let inp = || json!({"functor": format!("{:?}", spec), "f": show_lax(&px)});
+            // (the deprecated name of the same entry point must treat such an argument the same way)
+            #[allow(deprecated)]
+            let shim = lib(ctx, "lax::functor::define_map_arrow(shim)", "pending_argument", &inp, || lax::functor::define_map_arrow(&lfun, &lxp));
+            if let Some(img) = shim {
+                match walk_lax(ctx, "lax::functor::define_map_arrow(shim)", "pending_argument", &img, &inp).map(|pl| pl.strict()) {
+                    Some(Ok((got, _))) => {
+                        if ctx.check(got.src_type() == want.src_type() && got.tgt_type() == want.tgt_type(), "lax::functor::define_map_arrow(shim)/type/value/pending_argument", || json!({"input": inp(), "observed": show(&got)})) {
+                            expect_iso(ctx, "lax::functor::define_map_arrow(shim)", "generator-wise-substitution", "pending_argument", &got, &want, &inp);
+                        }
+                    }
+                    Some(Err(_)) => {
+                        ctx.check(false, "lax::functor::define_map_arrow(shim)/quotientable/value/pending_argument", || json!({"input": inp()}));
+                    }
+                    None => {}
+                }
+            }
             if let Some(img) = lib(ctx, "lax::Functor::map_arrow(dyn)", "pending_argument", &inp, || lfun.map_arrow(&lxp)) {
                 if let Some(pl) = walk_lax(ctx, "lax::Functor::map_arrow(dyn)", "pending_argument", &img, &inp) {
                     match pl.strict() {
